@@ -260,6 +260,9 @@ def make_popen(k):
             # loop); nothing is ever written, the write ends live as long as this object
             self.stdout = self.stderr = None
             self._wends = []
+            if not hasattr(k, "popens"):
+                k.popens = []
+            k.popens.append(self)
             if stdout == subprocess.PIPE:
                 r, w = os.pipe()
                 self.stdout = os.fdopen(r, "rb", 0)
@@ -318,11 +321,15 @@ def make_popen(k):
             raise NotImplementedError
 
         def __del__(self):
+            self.close_pipes()
+
+        def close_pipes(self):
             for w in getattr(self, "_wends", ()):
                 try:
                     os.close(w)
                 except OSError:
                     pass
+            self._wends = []
             for f in (getattr(self, "stdout", None), getattr(self, "stderr", None)):
                 try:
                     if f is not None:
@@ -681,6 +688,23 @@ class Sim(object):
             self.settle()
         except BaseException:
             pass
+        # descriptors the scenario opened: worker pipes of watchers with stream options, their stream objects
+        for w in list(getattr(getattr(self, "arb", None), "watchers", None) or []):
+            red = getattr(w, "stream_redirector", None)
+            try:
+                if red is not None:
+                    red.stop()
+            except Exception:
+                pass
+            for ch in ("stdout_stream", "stderr_stream"):
+                so = getattr(w, ch, None)
+                try:
+                    if so is not None and hasattr(so, "close"):
+                        so.close()
+                except Exception:
+                    pass
+        for p in getattr(self.k, "popens", []):
+            p.close_pipes()
         self.aloop.close()
         asyncio.set_event_loop(None)
 
